@@ -41,7 +41,7 @@ def batch(rng, n, multi_ok):
     out = []
     for _ in range(n):
         f = G.gff3_feature(rng, {"p_id": 0.6, "p_parent": 0.2, "p_name": 0.6, "seqids": ["chr1", "chr2"], "sources": ["src", "alt"],
-                                 "pool": [1, 5, 10, 20, 30], "ids": ["a", "b", "c", "d", "e", "f", "g", "h", "g\u00e9ne", "\u00fcb"]})
+                                 "pool": [1, 5, 10, 20, 30], "ids": ["a", "b", "c", "d", "e", "f", "g", "h", "g\u00e9ne", "\u00fcb", "a+b", "a b", "tRNA-Ala(+)1"]})
         r = rng.random()
         if r < 0.08:
             # valueless id attribute
